@@ -36,7 +36,7 @@ SUFFIXES = [' and a half', ' and a quarter', ' and half', ' y medio', ' y media'
 ARTICLES = ['a', 'an', 'another', 'half a', 'half an', 'half', '1/2', 'un', 'una', 'medio', 'media', 'une', 'um', 'uma', 'meia',
             'ein', 'eine', 'een', 'all', 'whole', 'full', 'todo el', 'toda la', 'tout le', 'toute la', 'few', 'a few', 'some',
             'several', 'a couple of', 'unos', 'unas', 'algunos', 'quelques', 'alguns', 'the']
-GRID_QUICK = ['3', '0', '1', '1000', '1001', '2.5', '1.15']
+GRID_QUICK = ['3', '0', '1', '1000', '1001', '2.5', '1.15', '0.14']
 GRID_MORE = ['2', '5000', '0.5', '1.5', '1.25', '0.1', '4.35', '1000.5', '999.99', '1000.000001', '123456789012345',
              '9007199254740993', '12345678901234567', '0.00001', '3.', '1,000', '1,001', '1e3', '100000000000000000000']
 
@@ -67,7 +67,7 @@ class Culture:
         self.extra = ';'.join('%s|%s|%s' % (cps(k), cps(um[k]), uv[k] if k in uv else 'none') for k in extra) or 'none'
         dn = cfg.double_numbers or {}
         self.dn = ';'.join('%s|%d|%d' % ((cps(k),) + float(v).as_integer_ratio()) for k, v in dn.items()) or 'none'
-        self.variant = '00'
+        self.variant = '000'
         self.ok = all(isinstance(v, int) and v >= 0 for v in uv.values()) and all(float(v) >= 0 for v in dn.values())
 
 
@@ -134,9 +134,20 @@ def probe_variant(ctx, CS):
         elif b != '99359.99999999999':
             ctx.report('correspondence', 'durations-variant-probe', "parse_number_space_unit('1.15 days').future_value = %s: neither variant" % (b,),
                        failing_input={'culture': 'en-us', 'query': '1.15 days', 'value': b})
+        w = '0'
+        if u == '1':
+            # follow-up: the multiple of a prefixed code is an exact decimal product (0.14 decades -> P1.4Y), not num * k
+            c = guarded(lambda: dp.parse_number_space_unit('0.14 decades').timex)
+            if c == 'P1.4Y':
+                w = '1'
+            elif c != 'P1.4000000000000001Y':
+                ctx.report('correspondence', 'durations-variant-probe', "parse_number_space_unit('0.14 decades').timex = %r: neither variant" % (c,),
+                           failing_input={'culture': 'en-us', 'query': '0.14 decades', 'timex': c})
+    else:
+        w = '0'
     for C in CS:
-        C.variant = u + v
-    ctx.extra['duration_variant'] = {'unit_code_fix': u == '1', 'value_fix': v == '1'}
+        C.variant = u + v + w
+    ctx.extra['duration_variant'] = {'unit_code_fix': u == '1', 'value_fix': v == '1', 'unit_code_exact_multiple': w == '1'}
 
 
 class FrontEnd:
@@ -204,6 +215,13 @@ def amount_of(timex):
     if not m:
         return None
     return (m.group(1) == 'T', Fraction(Decimal(m.group(2))), m.group(3))
+
+
+def value_agrees(value, exact):
+    """the printed value equals the exact product — or, beyond 2^53 where a fractional amount's product has no exact binary64,
+    it is that product rounded once (relative error at most 2^-53)"""
+    v = Fraction(Decimal(str(value)))
+    return v == exact or (exact >= 2 ** 53 and abs(v - exact) * 2 ** 53 <= exact)
 
 
 def texts_for(C, ctx, r):
@@ -405,11 +423,25 @@ def judge(ctx, oracle):
             tcode = None if a is None else ('MON' if (a[2] == 'M' and not a[0]) else a[2])
             if a is None or tcode not in SECS_WE or a[0] != (tcode in ('H', 'M', 'S')):
                 why = 'unit code %r: TIMEX %r is not P[T]<amount><U>' % (code, x.timex)
-            elif Fraction(Decimal(str(x.future_value))) != a[1] * SECS_WE[tcode]:
+            elif not value_agrees(x.future_value, a[1] * SECS_WE[tcode]):
                 exact = a[1] * SECS_WE[tcode]
                 why = 'unit code %r: TIMEX %r denotes %s s, the value is %r' % (code, x.timex, exact, x.future_value)
                 if exact and abs(Fraction(Decimal(str(x.future_value))) - exact) < exact / 10 ** 9:
-                    sig = 'duration-value-float'   # the TIMEX is right, the value is off by float rounding only
+                    # TIMEX and value differ by float rounding only: which of the two carries the noise?  When the amount
+                    # is known by construction the answer is exact; otherwise the one printed with 16+ digits.
+                    amt = None
+                    if name == 'space' and F.value is not None and F.fu_suf is None:
+                        amt = Fraction(Decimal(F.value))
+                    elif name == 'comb' and F.src_suf is None:
+                        amt = Fraction(Decimal(F.comb[0].rstrip('.')))
+                    value_ok = (Fraction(Decimal(str(x.future_value))) == amt * int(uv[unit])) if amt is not None else \
+                        len(str(x.future_value).replace('.', '').lstrip('0')) < 16
+                    if value_ok:
+                        sig = 'duration-timex-multiplied-float'   # _duration_timex multiplied the amount as a binary float
+                        why = 'unit code %r: TIMEX %r carries float noise (amount × prefix computed in binary), the value %r is exact' % (
+                            code, x.timex, x.future_value)
+                    else:
+                        sig = 'duration-value-float'   # the TIMEX is right, the value is off by float rounding only
         else:
             sig = 'duration-timex:%s:%s' % (C.cul, code)
             if a is None:
@@ -421,7 +453,7 @@ def judge(ctx, oracle):
             elif name == 'space' and F.value is not None and F.fu_suf is None and len(Decimal(F.value).normalize().as_tuple().digits) <= 15 \
                     and a[1] != Fraction(Decimal(F.value)):
                 why = 'TIMEX %r does not carry the amount %s' % (x.timex, F.value)
-            elif Fraction(Decimal(str(x.future_value))) != a[1] * int(uv[unit]) and len(str(a[1].numerator)) <= 15:
+            elif not value_agrees(x.future_value, a[1] * int(uv[unit])) and len(str(a[1].numerator)) <= 15:
                 sig = 'duration-value-float'
                 why = 'value %r is not %s × %d' % (x.future_value, a[1], uv[unit])
         if why and sig not in reported:
